@@ -46,6 +46,19 @@ def subharnesses(tier):
                         'apps': apps, 'event': ['none']}
                 subs.append(('%s-D%d-A%d-%s-unplaceable%d' % (
                     topo, D, A, g1.ptag(pl), i), spec))
+    # freeze with an unschedule list, then thaw before any cycle ran: the flag
+    # is still set on an instance whose server is up again
+    for topo in ('T1', 'T2'):
+        for pl in [(0, None, None), (0, 1, None), (None, 0, 1), (0, 0, None)]:
+            for i, j in enumerate(pl):
+                if j is None:
+                    continue
+                apps = [{'place': x} for x in pl]
+                apps[i]['unschedule'] = True
+                spec = {'topo': topo, 'D': 1, 'servers': [{}, {}],
+                        'apps': apps, 'event': ['none']}
+                subs.append(('%s-D1-A3-%s-unschedule%d' % (
+                    topo, g1.ptag(pl), i), spec))
     # two blacklisted instances ahead of a pending one that cannot be placed,
     # a running instance between them (A = 4)
     for topo in ('T1', 'T2'):
